@@ -31,12 +31,13 @@ VARIABLES l,         \* next trace line
           inRound,   \* inst -> submissions of the pool being sequenced
           ist,       \* inst -> status record
           firstAck,  \* inst -> (entry -> first acknowledgement on this cache lineage)
+          firstSct,  \* inst -> (entry -> identity of the first SCT bytes returned over HTTP)
           q,         \* bookkeeping since the last Quiescent event
           tampered,  \* storage was altered behind the log's back
           viol       \* violated formulas of this scenario: <<name, line>>
 
 vars == <<l, tab, lockVal, lockHist, replaced, pubVal, pubHist, objs, subs, acks,
-          pool, inRound, ist, firstAck, q, tampered, viol>>
+          pool, inRound, ist, firstAck, firstSct, q, tampered, viol>>
 
 e == Trace[l]
 
@@ -125,7 +126,7 @@ InitVars ==
     /\ lockVal = NoCp /\ lockHist = <<>> /\ replaced = {}
     /\ pubVal = NoCp /\ pubHist = <<>>
     /\ objs = <<>> /\ subs = <<>> /\ acks = {}
-    /\ pool = <<>> /\ inRound = <<>> /\ ist = <<>> /\ firstAck = <<>>
+    /\ pool = <<>> /\ inRound = <<>> /\ ist = <<>> /\ firstAck = <<>> /\ firstSct = <<>>
     /\ q = NoQ /\ tampered = FALSE /\ viol = {}
 
 TraceInit == l = 1 /\ tab = [scenario |-> "<none>"] /\ InitVars
@@ -139,7 +140,7 @@ Reset ==
     /\ lockVal' = NoCp /\ lockHist' = <<>> /\ replaced' = {}
     /\ pubVal' = NoCp /\ pubHist' = <<>>
     /\ objs' = <<>> /\ subs' = <<>> /\ acks' = {}
-    /\ pool' = <<>> /\ inRound' = <<>> /\ ist' = <<>> /\ firstAck' = <<>>
+    /\ pool' = <<>> /\ inRound' = <<>> /\ ist' = <<>> /\ firstAck' = <<>> /\ firstSct' = <<>>
     /\ q' = NoQ /\ tampered' = FALSE /\ viol' = {}
     /\ Step
 
@@ -170,7 +171,7 @@ Upload ==
           /\ pubHist' = IF isCp /\ e.applied /\ e.cp.id # pubVal.id THEN Append(pubHist, e.cp) ELSE pubHist
           /\ objs' = newObjs
           /\ viol' = AddV(viol, av \cup StateViol(lockVal, newPub, newObjs, acks, tampered))
-    /\ Unch(<<tab, lockVal, lockHist, replaced, subs, acks, pool, inRound, ist, firstAck, q, tampered>>)
+    /\ Unch(<<tab, lockVal, lockHist, replaced, subs, acks, pool, inRound, ist, firstAck, firstSct, q, tampered>>)
     /\ Step
 
 Tamper ==
@@ -181,14 +182,14 @@ Tamper ==
                   ELSE IF e.deleted THEN Drop(objs, o)
                   ELSE Put(objs, o, [good |-> SeqRange(e.good), imm |-> e.imm, hashOk |-> e.hashOk])
     /\ tampered' = TRUE
-    /\ Unch(<<tab, lockVal, lockHist, replaced, pubHist, subs, acks, pool, inRound, ist, firstAck, q, viol>>)
+    /\ Unch(<<tab, lockVal, lockHist, replaced, pubHist, subs, acks, pool, inRound, ist, firstAck, firstSct, q, viol>>)
     /\ Step
 
 Fetch ==
     /\ e.ev = "Fetch"
     /\ ist' = IF e.obj.k = "checkpoint" /\ e.ok
               THEN SetI(e.inst, [I(e.inst) EXCEPT !.lastPub = e.cp]) ELSE ist
-    /\ Unch(<<tab, lockVal, lockHist, replaced, pubVal, pubHist, objs, subs, acks, pool, inRound, firstAck, q, tampered, viol>>)
+    /\ Unch(<<tab, lockVal, lockHist, replaced, pubVal, pubHist, objs, subs, acks, pool, inRound, firstAck, firstSct, q, tampered, viol>>)
     /\ Step
 
 Discard ==
@@ -203,13 +204,13 @@ Discard ==
                        ELSE {})
        IN /\ objs' = newObjs
           /\ viol' = AddV(viol, av \cup StateViol(lockVal, pubVal, newObjs, acks, tampered))
-    /\ Unch(<<tab, lockVal, lockHist, replaced, pubVal, pubHist, subs, acks, pool, inRound, ist, firstAck, q, tampered>>)
+    /\ Unch(<<tab, lockVal, lockHist, replaced, pubVal, pubHist, subs, acks, pool, inRound, ist, firstAck, firstSct, q, tampered>>)
     /\ Step
 
 LockFetch ==
     /\ e.ev = "LockFetch"
     /\ ist' = IF e.ok THEN SetI(e.inst, [I(e.inst) EXCEPT !.lastLock = e.cp]) ELSE ist
-    /\ Unch(<<tab, lockVal, lockHist, replaced, pubVal, pubHist, objs, subs, acks, pool, inRound, firstAck, q, tampered, viol>>)
+    /\ Unch(<<tab, lockVal, lockHist, replaced, pubVal, pubHist, objs, subs, acks, pool, inRound, firstAck, firstSct, q, tampered, viol>>)
     /\ Step
 
 LockCreate ==
@@ -224,7 +225,7 @@ LockCreate ==
        IN /\ lockVal' = newLock
           /\ lockHist' = IF e.applied THEN Append(lockHist, e.new) ELSE lockHist
           /\ viol' = AddV(viol, av \cup StateViol(newLock, pubVal, objs, acks, tampered))
-    /\ Unch(<<tab, replaced, pubVal, pubHist, objs, subs, acks, pool, inRound, ist, firstAck, q, tampered>>)
+    /\ Unch(<<tab, replaced, pubVal, pubHist, objs, subs, acks, pool, inRound, ist, firstAck, firstSct, q, tampered>>)
     /\ Step
 
 \* the leaves a replace adds on top of the committed tree
@@ -258,7 +259,7 @@ LockReplace ==
           /\ replaced' = IF e.applied THEN replaced \cup {e.old.id} ELSE replaced
           /\ ist' = IF ~e.ok THEN SetI(i, [I(i) EXCEPT !.loser = TRUE]) ELSE ist
           /\ viol' = AddV(viol, av \cup StateViol(newLock, pubVal, objs, acks, tampered))
-    /\ Unch(<<tab, pubVal, pubHist, objs, subs, acks, pool, inRound, firstAck, q, tampered>>)
+    /\ Unch(<<tab, pubVal, pubHist, objs, subs, acks, pool, inRound, firstAck, firstSct, q, tampered>>)
     /\ Step
 
 \* start-up state constructed by the harness (not an action of the log)
@@ -266,7 +267,7 @@ SetLock ==
     /\ e.ev = "SetLock"
     /\ lockVal' = e.new /\ lockHist' = <<e.new>> /\ replaced' = {}
     /\ tampered' = TRUE
-    /\ Unch(<<tab, pubVal, pubHist, objs, subs, acks, pool, inRound, ist, firstAck, q, viol>>)
+    /\ Unch(<<tab, pubVal, pubHist, objs, subs, acks, pool, inRound, ist, firstAck, firstSct, q, viol>>)
     /\ Step
 
 Submit ==
@@ -274,7 +275,7 @@ Submit ==
     /\ subs' = Put(subs, e.sub, [e |-> e.e, low |-> e.low, inst |-> e.inst, gen |-> I(e.inst).gen,
                                  source |-> "", out |-> "", idx |-> -1, ts |-> 0,
                                  afterStop |-> I(e.inst).stopped])
-    /\ Unch(<<tab, lockVal, lockHist, replaced, pubVal, pubHist, objs, acks, pool, inRound, ist, firstAck, q, tampered, viol>>)
+    /\ Unch(<<tab, lockVal, lockHist, replaced, pubVal, pubHist, objs, acks, pool, inRound, ist, firstAck, firstSct, q, tampered, viol>>)
     /\ Step
 
 SubmitReturn ==
@@ -283,7 +284,7 @@ SubmitReturn ==
     /\ pool' = IF e.source = "sequencer" THEN Put(pool, e.inst, Get(pool, e.inst, {}) \cup {e.sub}) ELSE pool
     /\ q' = [q EXCEPT !.ret = @ \cup {e.sub},
                       !.adm = IF e.source = "sequencer" THEN @ \cup {e.sub} ELSE @]
-    /\ Unch(<<tab, lockVal, lockHist, replaced, pubVal, pubHist, objs, acks, inRound, ist, firstAck, tampered, viol>>)
+    /\ Unch(<<tab, lockVal, lockHist, replaced, pubVal, pubHist, objs, acks, inRound, ist, firstAck, firstSct, tampered, viol>>)
     /\ Step
 
 Outcome ==
@@ -298,6 +299,9 @@ Outcome ==
                     F("C02.AckPublished", tampered \/ Covered(pubVal, a))
                     \cup F("C07.AckTruth", Covered(lockVal, a) /\ e.leafOk)
                     \cup F("C07.SameAck", e.e \in DOMAIN fa => fa[e.e] = a)
+                    \* over HTTP: the resubmission's SCT is byte-identical
+                    \cup F("C07.SameSCT", (e.sctId # "" /\ e.e \in DOMAIN Get(firstSct, i, <<>>))
+                                             => Get(firstSct, i, <<>>)[e.e] = e.sctId)
                     \cup F("C02.SCTVerifies", e.sct # "invalid")
                     \cup F("C06.LoserStops", ~(I(i).loser /\ e.sub \in Get(inRound, i, {})))
                     \cup F("C17.AfterStop", ~(e.sub \in I(i).stopPending \/ s.afterStop))
@@ -308,6 +312,8 @@ Outcome ==
                                   ![e.sub].idx = e.idx, ![e.sub].ts = e.ts]
           /\ acks' = newAcks
           /\ firstAck' = IF isOk /\ e.e \notin DOMAIN fa THEN Put(firstAck, i, Put(fa, e.e, a)) ELSE firstAck
+          /\ firstSct' = IF isOk /\ e.sctId # "" /\ e.e \notin DOMAIN Get(firstSct, i, <<>>)
+                         THEN Put(firstSct, i, Put(Get(firstSct, i, <<>>), e.e, e.sctId)) ELSE firstSct
           /\ pool' = IF e.class = "evicted" THEN Put(pool, i, Get(pool, i, {}) \ {e.sub}) ELSE pool
           /\ q' = IF e.class = "evicted" THEN [q EXCEPT !.ev = @ \cup {e.sub}] ELSE q
           /\ viol' = AddV(viol, av \cup StateViol(lockVal, pubVal, objs, newAcks, tampered))
@@ -324,13 +330,13 @@ Point ==
             /\ q' = [q EXCEPT !.rot = TRUE, !.evicted = Put(@, e.inst, {}),
                               !.evictedPrev = Put(@, e.inst, Get(q.evicted, e.inst, {}))]
        ELSE Unch(<<inRound, pool, q>>)
-    /\ Unch(<<tab, lockVal, lockHist, replaced, pubVal, pubHist, objs, subs, acks, ist, firstAck, tampered, viol>>)
+    /\ Unch(<<tab, lockVal, lockHist, replaced, pubVal, pubHist, objs, subs, acks, ist, firstAck, firstSct, tampered, viol>>)
     /\ Step
 
 RoundStart ==
     /\ e.ev = "RoundStart"
     /\ ist' = SetI(e.inst, [I(e.inst) EXCEPT !.round = e.flags])
-    /\ Unch(<<tab, lockVal, lockHist, replaced, pubVal, pubHist, objs, subs, acks, pool, inRound, firstAck, q, tampered, viol>>)
+    /\ Unch(<<tab, lockVal, lockHist, replaced, pubVal, pubHist, objs, subs, acks, pool, inRound, firstAck, firstSct, q, tampered, viol>>)
     /\ Step
 
 RoundEnd ==
@@ -338,7 +344,7 @@ RoundEnd ==
     /\ viol' = AddV(viol,
           F("C06.LoserStops", I(e.inst).loser => e.class = "fatal")
           \cup F("C03.RoundAfterRecovery", I(e.inst).round.mustSucceed => e.class = "none"))
-    /\ Unch(<<tab, lockVal, lockHist, replaced, pubVal, pubHist, objs, subs, acks, pool, inRound, ist, firstAck, q, tampered>>)
+    /\ Unch(<<tab, lockVal, lockHist, replaced, pubVal, pubHist, objs, subs, acks, pool, inRound, ist, firstAck, firstSct, q, tampered>>)
     /\ Step
 
 Crash ==
@@ -346,7 +352,7 @@ Crash ==
     /\ ist' = SetI(e.inst, [I(e.inst) EXCEPT !.up = FALSE, !.loser = FALSE, !.stopped = FALSE,
                                              !.creatingOver = FALSE, !.gen = @ + 1, !.stopPending = {}])
     /\ pool' = Put(pool, e.inst, {}) /\ inRound' = Put(inRound, e.inst, {})
-    /\ Unch(<<tab, lockVal, lockHist, replaced, pubVal, pubHist, objs, subs, acks, firstAck, q, tampered, viol>>)
+    /\ Unch(<<tab, lockVal, lockHist, replaced, pubVal, pubHist, objs, subs, acks, firstAck, firstSct, q, tampered, viol>>)
     /\ Step
 
 Verifies(cp, i) == cp.signer = I(i).key /\ cp.origin = I(i).name /\ cp.ext = 0
@@ -357,7 +363,7 @@ LoadStart ==
                                              !.lastLock = NoCp, !.lastPub = NoCp, !.loser = FALSE,
                                              !.stopped = FALSE, !.stopPending = {}])
     /\ pool' = Put(pool, e.inst, {}) /\ inRound' = Put(inRound, e.inst, {})
-    /\ Unch(<<tab, lockVal, lockHist, replaced, pubVal, pubHist, objs, subs, acks, firstAck, q, tampered, viol>>)
+    /\ Unch(<<tab, lockVal, lockHist, replaced, pubVal, pubHist, objs, subs, acks, firstAck, firstSct, q, tampered, viol>>)
     /\ Step
 
 LoadEnd ==
@@ -381,28 +387,28 @@ LoadEnd ==
                        ELSE {})
        IN viol' = AddV(viol, av)
     /\ ist' = SetI(e.inst, [I(e.inst) EXCEPT !.up = (e.class = "none")])
-    /\ Unch(<<tab, lockVal, lockHist, replaced, pubVal, pubHist, objs, subs, acks, pool, inRound, firstAck, q, tampered>>)
+    /\ Unch(<<tab, lockVal, lockHist, replaced, pubVal, pubHist, objs, subs, acks, pool, inRound, firstAck, firstSct, q, tampered>>)
     /\ Step
 
 CreateStart ==
     /\ e.ev = "CreateStart"
     /\ ist' = SetI(e.inst, [I(e.inst) EXCEPT !.creatingOver = IsCp(lockVal) \/ IsCp(pubVal),
                                              !.key = e.flags.key, !.name = e.flags.name])
-    /\ Unch(<<tab, lockVal, lockHist, replaced, pubVal, pubHist, objs, subs, acks, pool, inRound, firstAck, q, tampered, viol>>)
+    /\ Unch(<<tab, lockVal, lockHist, replaced, pubVal, pubHist, objs, subs, acks, pool, inRound, firstAck, firstSct, q, tampered, viol>>)
     /\ Step
 
 CreateEnd ==
     /\ e.ev = "CreateEnd"
     /\ viol' = AddV(viol, F("C06.NoCreateOverExisting", I(e.inst).creatingOver => e.class # "none"))
     /\ ist' = SetI(e.inst, [I(e.inst) EXCEPT !.creatingOver = FALSE])
-    /\ Unch(<<tab, lockVal, lockHist, replaced, pubVal, pubHist, objs, subs, acks, pool, inRound, firstAck, q, tampered>>)
+    /\ Unch(<<tab, lockVal, lockHist, replaced, pubVal, pubHist, objs, subs, acks, pool, inRound, firstAck, firstSct, q, tampered>>)
     /\ Step
 
 SequencerStopped ==
     /\ e.ev = "SequencerStopped"
     /\ ist' = SetI(e.inst, [I(e.inst) EXCEPT !.stopped = TRUE, !.stopPending = Get(pool, e.inst, {}), !.stopLine = l])
     /\ viol' = AddV(viol, F("C06.LoserStops", I(e.inst).loser => e.class = "fatal"))
-    /\ Unch(<<tab, lockVal, lockHist, replaced, pubVal, pubHist, objs, subs, acks, pool, inRound, firstAck, q, tampered>>)
+    /\ Unch(<<tab, lockVal, lockHist, replaced, pubVal, pubHist, objs, subs, acks, pool, inRound, firstAck, firstSct, q, tampered>>)
     /\ Step
 
 \* admission decisions since the last quiescent point (C17); evaluated only
@@ -443,7 +449,7 @@ Quiescent ==
     /\ q' = [adm |-> {}, ev |-> {}, ret |-> {}, rot |-> FALSE, poolAt |-> pool, evictedPrev |-> q.evictedPrev,
              evicted |-> [i \in DOMAIN q.evicted \cup {subs[x].inst : x \in q.ev} |->
                             Get(q.evicted, i, {}) \cup {subs[x].e : x \in {y \in q.ev : subs[y].inst = i}}]]
-    /\ Unch(<<tab, lockVal, lockHist, replaced, pubVal, pubHist, objs, subs, acks, pool, inRound, ist, firstAck, tampered>>)
+    /\ Unch(<<tab, lockVal, lockHist, replaced, pubVal, pubHist, objs, subs, acks, pool, inRound, ist, firstAck, firstSct, tampered>>)
     /\ Step
 
 \* the harness asks for a formula to be evaluated at a quiescent point
@@ -456,18 +462,18 @@ Check ==
                    [] e.kind = "noneAcked" -> F("C06.LoserStops", \A s \in S : subs[s].out # "ok")
                    [] OTHER -> {}
        IN viol' = AddV(viol, av)
-    /\ Unch(<<tab, lockVal, lockHist, replaced, pubVal, pubHist, objs, subs, acks, pool, inRound, ist, firstAck, q, tampered>>)
+    /\ Unch(<<tab, lockVal, lockHist, replaced, pubVal, pubHist, objs, subs, acks, pool, inRound, ist, firstAck, firstSct, q, tampered>>)
     /\ Step
 
 CacheRollback ==
     /\ e.ev = "CacheRollback"
-    /\ firstAck' = Put(firstAck, e.inst, <<>>)
+    /\ firstAck' = Put(firstAck, e.inst, <<>>) /\ firstSct' = Put(firstSct, e.inst, <<>>)
     /\ Unch(<<tab, lockVal, lockHist, replaced, pubVal, pubHist, objs, subs, acks, pool, inRound, ist, q, tampered, viol>>)
     /\ Step
 
 Other ==
     /\ e.ev \in {"Clock", "Note", "SequencerStart"}
-    /\ Unch(<<tab, lockVal, lockHist, replaced, pubVal, pubHist, objs, subs, acks, pool, inRound, ist, firstAck, q, tampered, viol>>)
+    /\ Unch(<<tab, lockVal, lockHist, replaced, pubVal, pubHist, objs, subs, acks, pool, inRound, ist, firstAck, firstSct, q, tampered, viol>>)
     /\ Step
 
 TraceNext ==
